@@ -1,5 +1,6 @@
 """Shared helpers of the `queue` component (C19): loading the tree under test, a recording
 un-networked transport, Python value <-> driver JSON conversion.  Not a component (no PROPERTIES line)."""
+import contextlib
 import importlib
 import os
 import sys
@@ -21,6 +22,27 @@ def load(ctx):
         assert os.path.abspath(pysyncobj.__file__).startswith(repo + os.sep), pysyncobj.__file__
     import pysyncobj.syncobj as so
     return so
+
+
+@contextlib.contextmanager
+def real_runtime(so):
+    """Run pysyncobj on its GENUINE clock and PRNG for the duration of the block, whatever earlier
+    components of this process left patched into the modules (harness/sim.py installs a virtual
+    `monotonicTime` and a scripted `random` and never removes them: with a frozen clock no election
+    ever happens).  The previous values are put back afterwards."""
+    import random as _random
+    import pysyncobj.transport as tr
+    import pysyncobj.tcp_connection as tc
+    from pysyncobj.monotonic import monotonic
+    saved = (so.monotonicTime, tr.monotonicTime, tc.monotonicTime, so.random)
+    so.monotonicTime = monotonic
+    tr.monotonicTime = monotonic
+    tc.monotonicTime = monotonic
+    so.random = _random
+    try:
+        yield
+    finally:
+        so.monotonicTime, tr.monotonicTime, tc.monotonicTime, so.random = saved
 
 
 def make_transport_class(so):
